@@ -480,7 +480,19 @@ func main() {
 	fw.Main(&fw.Property{
 		ID:        "C13",
 		DesignRef: "DESIGN.md §5 C13",
-		ModelJobs: func(env *fw.Env) []fw.TLCJob { return nil },
+		ModelJobs: func(env *fw.Env) []fw.TLCJob {
+			// implementation-shaped model of the memory backend refines the reference (all reachable maps x all operations)
+			fams := []string{`{"s1"}`, `{"l1"}`, `{"h1"}`, `{"c1"}`}
+			if env.Tier == "thorough" {
+				fams = append(fams, `{"s1", "s2"}`, `{"s1", "l1"}`)
+			}
+			var jobs []fw.TLCJob
+			for i, k := range fams {
+				jobs = append(jobs, fw.TLCJob{Name: fmt.Sprintf("mc:MemImpl:%d", i), Module: "MemImpl", Cfg: "MemImpl.cfg", Workers: 4,
+					Consts: map[string]string{"KEYS": k, "OLDCAS": "FALSE", "OLDSETEXP": "FALSE"}})
+			}
+			return jobs
+		},
 		GenJobs: func(env *fw.Env) []fw.TLCJob {
 			cfgs := []string{"KV_str1.cfg", "KV_list.cfg", "KV_hash.cfg", "KV_ctr.cfg"}
 			if env.Tier == "thorough" {
